@@ -399,7 +399,7 @@ func runC17(w *World, r *Report) {
 			n += piecesAsTheyCame(w, r, "C17.streamed-output-as-is", f, n)
 		}
 		if n == 0 {
-			undecidedf("C17.streamed-output-as-is: no strings.Builder.WriteString in the concat closure")
+			r.Deferred = append(r.Deferred, fmt.Sprintf("C17.streamed-output-as-is: no strings.Builder.WriteString in the concat closure"))
 		}
 	}
 
@@ -615,7 +615,7 @@ func runC17(w *World, r *Report) {
 			}
 		}
 		if n < 2 {
-			undecidedf("C17.given-tool-list-replaces: only %d conversions of a call's tool list found", n)
+			r.Deferred = append(r.Deferred, fmt.Sprintf("C17.given-tool-list-replaces: only %d conversions of a call's tool list found", n))
 		}
 	}
 
@@ -669,7 +669,7 @@ func runC17(w *World, r *Report) {
 			}
 		})
 		if n == 0 {
-			undecidedf("C17.frame-slot-is-the-position: no literal of ToolsNode.Stream captures an integer")
+			r.Deferred = append(r.Deferred, fmt.Sprintf("C17.frame-slot-is-the-position: no literal of ToolsNode.Stream captures an integer"))
 		}
 	}
 
